@@ -18,6 +18,8 @@ KIND_NAME = {"EnumeratedType": "Enumerated", "Integer32Type": "Integer32", "Unsi
 def avp_classes():
     import bromelia.avps  # noqa: F401
     from bromelia.base import DiameterAVP
+    for lib in LIBS:        # some dictionary modules (ts_132_299) are only imported by a lib package
+        importlib.import_module("bromelia.lib.%s.messages" % lib)
     out, seen = [], set()
     for c in DiameterAVP.__subclasses__():
         if id(c) not in seen:
